@@ -221,9 +221,13 @@ CHECK = {
         Lit("cap-linehaul", "cmp", big={"vehicle_capacity"}, small={"demand_linehaul"}, params_small={"actions"}, strict=False, const=0),
         Lit("cap-backhaul", "cmp", big={"vehicle_capacity"}, small={"demand_backhaul"}, params_small={"actions"}, strict=False, const=0),
     ],
-    "TSPkoptEnv": [Lit("permutation", "eq", cells={"rec_best"}, op="==0")],
+    "TSPkoptEnv": [Lit("permutation", "eq", cells={"rec_best"}, op="==0"),
+                   Lit("single-tour", "cmp", big={"rec_best"}, small=set(), strict=True, const=0, optional=True,
+                       why="every node is reached by following the successor list from node 0 (visit stamp > 0)")],
     "PDPRuinRepairEnv": [
         Lit("permutation", "eq", cells={"rec_best"}, op="==0"),
+        Lit("single-tour", "cmp", big={"rec_best"}, small=set(), strict=True, const=0, optional=True,
+            why="every node is reached by following the successor list from the depot (visit stamp > 0)"),
         Lit("pickup-before-delivery", "cmp", big={"rec_best"}, small={"rec_best"}, strict=True, const=0),
     ],
 }
